@@ -17,7 +17,7 @@ def run(ctx):
                 "edit; distinct = (operation, resulting canonical tree)" % (shards * count, steps))
     ctx.assumptions = ["tolerance 1e-8 relative covers the rounding drift of repeated in-place add/remove",
                        "data inside the underflow window of C02 (moderate dynamic range)"]
-    tasks = [{"seed": ctx.seed, "shard": i, "count": count, "steps": steps, "nmax": 8, "monitors": ["rebuild"]}
+    tasks = [{"seed": ctx.seed, "shard": i, "count": count, "steps": steps, "nmax": 8, "big": 1 if quick else 4, "big_steps": 20, "monitors": ["rebuild"]}
              for i in range(shards)]
     ctx.map("vlib.histrun", "history_task", tasks, timeout=3000)
     # (b) the real samplers: rebuild_equal as a postcondition of every sample_tree (direct calls and chain runs)
